@@ -15,9 +15,9 @@ def make_plan(ths, tier, rnd):
     for theory, (sig, stages) in modelcheck.select(ths, PROP, tier):
         api = histories.api_of(sig, modelcheck.module_path(theory))
         n = SIZE.get(theory, 2)
-        for _ in range(200 if thorough else 40):
+        for _ in range(80 if thorough else 40):
             plan.add(theory, histories.random_history(sig, api, rnd, (8 if theory == 'joins' else 0) + rnd.randint(3, 12), n, p_until=0.05))
-    modelcheck.add_generated_programs(plan, rnd, 60 if thorough else 4, 12 if thorough else 8, PROP)
+    modelcheck.add_generated_programs(plan, rnd, 16 if thorough else 4, 8, PROP)
     return plan
 
 
